@@ -739,6 +739,65 @@ def scripted_case(rng, sess: Session):
                     p.kill()
 
 
+# ------------------------------------------------------------------------------ (G) first appends into a fresh directory
+def fresh_dir_case(rng, sess: Session):
+    """Several writers make their first append at the same moment into a log directory that does not exist yet (a thread
+    switch is offered at every statement of the path helpers): every record must arrive, nobody may raise."""
+    import inspect
+    import clematis.io.paths as paths_mod
+    from clematis.io.log import append_jsonl
+    from vlib.harness import line_yields
+
+    nt = rng.choice([2, 3, 4, 6])
+    with tmpdir("c16f_") as d:
+        target = os.path.join(d, "not", "yet", f"there{rng.randint(0, 9)}")
+        old_env = {k: os.environ.get(k) for k in ("CLEMATIS_LOG_DIR", "CI")}
+        os.environ["CLEMATIS_LOG_DIR"] = target
+        os.environ.pop("CI", None)
+        errors = []
+        barrier = threading.Barrier(nt)
+
+        def w(i):
+            try:
+                barrier.wait(10)
+                append_jsonl("fresh.jsonl", {"w": i, "seq": 0})
+                append_jsonl("fresh.jsonl", {"w": i, "seq": 1})
+            except Exception as ex:
+                errors.append((i, f"{type(ex).__name__}: {ex}"[:160]))
+
+        codes = [f.__code__ for f in vars(paths_mod).values() if inspect.isfunction(f) and f.__module__ == paths_mod.__name__]
+        old_si = sys.getswitchinterval()
+        sys.setswitchinterval(1e-6)
+        try:
+            with line_yields(codes, prob=0.5, seed=rng.randint(0, 10 ** 6), tool=5, name="verif-c16") as inj:
+                ths = [threading.Thread(target=w, args=(i,)) for i in range(nt)]
+                for t in ths:
+                    t.start()
+                for t in ths:
+                    t.join(30)
+            sess.count("fresh_dir_yields_injected", inj[0])
+        finally:
+            sys.setswitchinterval(old_si)
+            for k, v in old_env.items():
+                if v is None:
+                    os.environ.pop(k, None)
+                else:
+                    os.environ[k] = v
+        sess.evaluations += 1
+        sess.count("fresh_directory_first_appends")
+        case = {"writers": nt}
+        got = []
+        pth = os.path.join(target, "fresh.jsonl")
+        if os.path.exists(pth):
+            got = sorted((json.loads(l)["w"], json.loads(l)["seq"]) for l in open(pth, "rb").read().split(b"\n") if l)
+        if errors:
+            sess.violation("writer-raised:first-append-into-a-fresh-directory", case, errors[:3])
+        elif got != sorted((i, q) for i in range(nt) for q in (0, 1)):
+            sess.violation("record-lost:first-append-into-a-fresh-directory", case, {"got": got})
+        else:
+            sess.nontrivial.add(chash(("fresh", nt, inj[0])))
+
+
 def gen_writer_case(rng, tier):
     big = tier == "thorough"
     sizes = rng.choice([[1, 10, 200], [1, 200, 5000, 70000], [100, 70000, 300000], [1, 1048576] if big else [1, 200000], [50]])
@@ -778,6 +837,8 @@ def _work(args):
         elif what == "scripted":
             for _ in range(6 if q else 150):
                 scripted_case(rng, sess)
+            for _ in range(15 if q else 300):
+                fresh_dir_case(rng, sess)
     except Exception as ex:
         import traceback
         sess.inconclusive_because(f"harness error {type(ex).__name__}: {ex} @ {traceback.format_exc()[-500:]}")
@@ -804,6 +865,7 @@ def main(tier: str, seed: int):
     sess.require("rotation_rounds", 200)
     sess.require("rotation_faults_fired:interrupt", 10)
     sess.require("scripted_histories", 12)
+    sess.require("fresh_directory_first_appends", 30)
     sess.require("rewrites_under_short_writes", 8)
     sess.require("scripted_rotations", 10)
     sess.finish()
